@@ -14,6 +14,7 @@ Safety model (bank-grade, fail closed):
 
 import json
 import logging
+import posixpath
 import time
 from typing import Dict, Set
 
@@ -301,5 +302,20 @@ class GarbageCollector:
             # "/data/x" under a table at "/data" is the table-relative spelling,
             # not an absolute one: strip only if a table directory follows.
             if rest.startswith(("data/", "metadata/")):
-                return rest
-        return path.lstrip("/")
+                return self._collapse(rest)
+        return self._collapse(path.lstrip("/"))
+
+    @staticmethod
+    def _collapse(rel_path: str) -> str:
+        """Collapse '.' segments and doubled slashes of a table-relative path.
+
+        A data file registered as "./data/x.parquet" or "data//x.parquet" is
+        the file the listing reports as "data/x.parquet". Comparing the two
+        spellings literally made the live file look like an orphan, and the
+        collector deleted it. A leading ".." survives, so the escape guard in
+        _gc_prefix still sees it.
+        """
+        if "//" not in rel_path and "./" not in rel_path and not rel_path.endswith("/."):
+            return rel_path
+        collapsed = posixpath.normpath(rel_path)
+        return "" if collapsed == "." else collapsed
